@@ -84,7 +84,50 @@ def part_interrupt(spec):
             raise excs.UserBase("interrupt while the end message is being delivered")
 
     add_destinations(rec, interrupter)
-    style = rng.choice(["explicit_then_exit", "exit_then_finally", "explicit_twice"])
+    style = rng.choice(["explicit_then_exit", "exit_then_finally", "explicit_twice", "during_extractor_report"])
+    if style == "during_extractor_report":
+        # the interrupt strikes while the traceback of a RAISING EXTRACTOR is being delivered; the program handles it and goes
+        # on: later failed actions still get the fields of their exceptions' extractors (here the built-in errno one)
+        from eliot import register_exception_extractor
+
+        def boom(e):
+            raise ExtractorBoom("extractor failed")
+        register_exception_extractor(HelperError, boom)
+        hit = {"armed": True}
+
+        def interrupter2(m):
+            if m.get("message_type") == "eliot:traceback" and hit["armed"]:
+                hit["armed"] = False
+                raise excs.UserBase("interrupt while the extractor's traceback is being delivered")
+        add_destinations(interrupter2)
+        problems = []
+        got = None
+        try:
+            try:
+                with start_action(action_type="first"):
+                    raise HelperError("fails, its extractor raises, the report is interrupted")
+            except (excs.UserBase, HelperError) as e:
+                got = e
+            for k in range(2):
+                try:
+                    with start_action(action_type="later", k=k):
+                        raise OSError(28, "disk full")
+                except OSError:
+                    pass
+        finally:
+            remove_destination(rec)
+            remove_destination(interrupter)
+            remove_destination(interrupter2)
+        if not isinstance(got, excs.UserBase):
+            problems.append("the interrupt raised by the destination did not reach the program (got %r)" % (got,))
+        later = [m for m in tape.msgs("rec") if m.get("action_type") == "later" and m.get("action_status") == "failed"]
+        if len(later) != 2 or any(m.get("errno") != 28 for m in later):
+            problems.append("after an interrupt during an extractor-failure report, later failed actions lack their extractor's fields: %r" % (
+                [{k: v for k, v in m.items() if k in ("errno", "exception", "action_status")} for m in later],))
+        res["nontrivial"].append(h(["interrupt", style]))
+        if problems:
+            res["violations"].append({"msg": problems[0], "mech": None, "detail": {"part": "interrupt", "style": style, "problems": problems}})
+        return res
     state["armed"] = True
     got = None
     try:
